@@ -562,9 +562,14 @@ void h_equal_range(void) {
    level-0 order) live in records for the handles the thread holds; every access to a level pointer of a linked node is preceded by arbitrary
    interference constrained by the level's list invariant.  Keys are size_t ordered by <  (key_compare = std::less; not_greater_compare(a,b) = !(b<a)).
    ===================================================================================================================================== */
-typedef size_t size_type; typedef uint16_t key_type; typedef uintptr_t node_ptr;   /* the Key template parameter: instantiated with uint16_t, std::less */
+typedef size_t size_type; typedef uint16_t key_type;   /* the Key template parameter: instantiated with uint16_t, std::less */
+#ifdef SK_EXT
+typedef uint16_t node_ptr; typedef uint16_t idx_t;   /* node handles of the per-index representation: index + 1 (0 = null); lists of up to 4095 elements */
+#else
+typedef uintptr_t node_ptr;
+#endif
 #undef NULL
-#define NULL ((uintptr_t)0)
+#define NULL ((node_ptr)0)
 enum { max_level = 32 };
 typedef uint8_t rank_t;
 #ifdef COVERS
@@ -612,6 +617,183 @@ void h_head(void) {
     VACUITY_END();
 }
 #endif
+
+#ifdef SK_NODE
+/* ---- skip_list_node::create + constructor + get_atomic_next + calc_node_size: the real layout (header followed by `height` level pointers), real pointer arithmetic in a
+   block of exactly the size the code asked the allocator for; fresh memory holds arbitrary bytes ---- */
+typedef struct skip_list_node *raw_node_ptr;
+struct skip_list_node { union { key_type my_value; }; size_type my_height; size_type my_index_number; };
+static size_t g_alloc_sz; static int g_allocs; static char *g_block;
+static void *STUB_allocate(size_type sz) { g_allocs++; g_alloc_sz = sz; g_block = malloc(sz); __CPROVER_assume(g_block != 0); return g_block; }
+#define CONSTRUCT_PTR(p, v) (*(p) = (raw_node_ptr)(v))
+size_t g_cl;   /* ONE arbitrary level of the new node */
+#define LOOP_create_levels __CPROVER_assigns(l, __CPROVER_object_whole(node)) \
+    __CPROVER_loop_invariant(l <= height && (char *)node == g_block && node->my_height == g_h0 && (g_cl >= l || ((raw_node_ptr *)(node + 1))[g_cl] == (raw_node_ptr)0)) __CPROVER_decreases(height - l)
+size_t g_h0;
+#define LOOP_create_1 LOOP_create_levels
+#include "skipnode.inc"
+size_t IN_height, IN_level;
+void h_node_create(void) {
+    size_type h = IN_height = nondet_size_t(), l = IN_level = nondet_size_t(); __CPROVER_assume(h >= 1 && h <= max_level && l < h);   /* heights: job skip.level; the head: max_level */
+    g_allocs = 0; g_cl = l; g_h0 = h;
+    struct skip_list_node *n = snode_create(h);
+    OBLIGATION(g_allocs == 1 && (char *)n == g_block && g_alloc_sz >= sizeof(struct skip_list_node) + h * sizeof(raw_node_ptr), "C12.skip: a node is one block with room for its header and one pointer per level of its height");
+    OBLIGATION(n->my_height == h, "C12.skip: a new node records the height it was created with (readers and extract trust it to bound the level pointers)");
+    OBLIGATION(*snode_get_atomic_next(n, l) == (raw_node_ptr)0, "C12.skip: a new node carries no link at ANY level: every level pointer below its height starts as null (a reader that reaches a node at a low level and reads a higher level it is not linked at yet must not see a link)");
+    VACUITY_END();
+}
+#endif
+
+#ifdef SK_EXT
+/* =====================================================================================================================================
+   The non-concurrent operations of the skip list (unsafe_extract / unsafe_erase / the extraction inside merge) on a list of ANY length.
+   Per-index representation: node 0 is the head, nodes 1..n are the elements in level-0 order (the i-th node IS index i: pairwise distinct by construction; keys are attributes of
+   the index and sorted along it, so "in index order" is "in comparator order"); height g_ht[i] (a real array of symbolic length).
+   Level pointers: the slots of ONE arbitrary level g_L are a real array (g_nxl[i] = slot (i, g_L)), so the memory of level g_L is exact; the slots of the other levels are, as they
+   were on entry, an uninterpreted function nx(i, l) of (node, level) - the same slot read twice gives the same value; stores to them are checked (a node of the list, a level below
+   its height, a value that is null or a node) and dropped, a later load at such a level yields an unknown value: the levels exchange no data (a value read at level l is stored at
+   level l), so what is proved for the arbitrary level g_L holds for every level.
+   Well-formedness of the entry list - the precondition "for ALL slots (i,l) and ALL nodes k" - is supplied by INSTANCES at the use sites:
+      WF(i,l,k): the value q of slot (i,l), l < height(i), is null or a node behind i that has a pointer at level l, and node k is not skipped by it:
+                 not (i < k < q and height(k) > l)   [q null: not (i < k and height(k) > l)]
+   i.e. the chain of every level is exactly the sub-sequence of the nodes of that height.  Instances at level g_L are only taken while that level is untouched (g_written == false).
+   ===================================================================================================================================== */
+struct csl { size_type my_max_height, my_size; };
+struct npair { node_ptr first, second; };
+#define NMAX 4095
+static idx_t g_n; static uint8_t *g_ht; static node_ptr *g_nxl; static bool g_written; static uint64_t g_wmask; static int g_size_decs;
+node_ptr __CPROVER_uninterpreted_nx(idx_t i, uint8_t l);
+idx_t g_E, g_W, g_K; uint8_t g_L;       /* the node operated on; ONE arbitrary level; ONE arbitrary other node (its slot at level g_L is watched); ONE arbitrary third node (well-formedness witness) */
+#define NXL(i) g_nxl[i]
+#define UNTOUCHED (!g_written)
+#define NODE(i) ((node_ptr)((i) + 1))
+#define IDX(p) ((idx_t)((p) - 1))
+#define ISNODE(p) ((p) != NULL && IDX(p) <= g_n)
+#define HT_OK(i) ((i) == 0 ? g_ht[0] == max_level : (g_ht[i] >= 1 && g_ht[i] <= max_level))
+static bool wfq(idx_t i, uint8_t l, node_ptr q, idx_t k) {
+    return HT_OK(i) & HT_OK(k) & (q == NULL ? !((k > i) & (g_ht[k] > l)) : (ISNODE(q) && IDX(q) > i && HT_OK(IDX(q)) && g_ht[IDX(q)] > l && !((i < k) & (k < IDX(q)) & (g_ht[k] > l)))); }
+/* an instance of the precondition at slot (i, g_L) and node k - only while that level is untouched */
+static void wf_inst(idx_t i, idx_t k) { if (!g_written && i <= g_n && k <= g_n && g_L < g_ht[i]) __CPROVER_assume(wfq(i, g_L, NXL(i), k)); }
+static size_type node_height(node_ptr p) { __CPROVER_assert(ISNODE(p), "C12.safe: only nodes of the list are dereferenced (never null, never a stale pointer)"); __CPROVER_assume(HT_OK(IDX(p))); return g_ht[IDX(p)]; }
+static node_ptr load_level(node_ptr p, size_type lv) {
+    __CPROVER_assert(ISNODE(p), "C12.safe: only nodes of the list are dereferenced (never null, never a stale pointer)");
+    __CPROVER_assert(lv < g_ht[IDX(p)], "C12.safe: a level pointer is read only below the node's height (the node has no pointer at that level)");
+    idx_t i = IDX(p);
+    if (lv == g_L) { wf_inst(i, g_E); return NXL(i); }
+    node_ptr q = __CPROVER_uninterpreted_nx(i, (uint8_t)lv);
+    if ((g_wmask >> lv) & 1) { q = nondet_ushort(); __CPROVER_assume(q == NULL || ISNODE(q)); }      /* a level that was written to meanwhile: nothing is known */
+    else __CPROVER_assume(wfq(i, (uint8_t)lv, q, g_E));
+    return q; }
+static void store_level(node_ptr p, size_type lv, node_ptr v) {
+    __CPROVER_assert(ISNODE(p), "C12.safe: only nodes of the list are dereferenced (never null, never a stale pointer)");
+    __CPROVER_assert(lv < g_ht[IDX(p)], "C12.safe: a level pointer is written only below the node's height (the node has no pointer at that level)");
+    __CPROVER_assert(v == NULL || ISNODE(v), "C12.safe: a level pointer receives null or a node of the list");
+    idx_t i = IDX(p);
+    if (lv != g_L) { if (lv < max_level) g_wmask |= (uint64_t)1 << lv; return; }
+    g_written = true; NXL(i) = v; }
+#define SNODE_HEIGHT(p) node_height(p)
+#define SNODE_INDEX(p) ((size_type)0)
+#define SNODE_SET_INDEX(p, v) ((void)0)
+#define SNODE_NEXT_WORD(p, lv) (p), (lv)
+#define ATOMIC_LOAD_AT(site, ...) XLOAD_(__VA_ARGS__)
+#define XLOAD_(p, lv) load_level((p), (lv))
+#define ATOMIC_STORE_AT(site, ...) XSTORE_(__VA_ARGS__)
+#define XSTORE_(p, lv, v) store_level((p), (lv), (v))
+#define ITER(x) (x)
+#define IDX_OK(i) __CPROVER_assert((i) < max_level, "C12.safe: the position array is indexed below max_level")
+#include "snodes.inc"
+static void ext_setup(void) {
+    g_n = nondet_ushort(); __CPROVER_assume(g_n >= 1 && g_n <= NMAX);
+    g_ht = malloc(((size_t)g_n + 1) * sizeof(uint8_t)); g_nxl = malloc(((size_t)g_n + 1) * sizeof(node_ptr)); __CPROVER_assume(g_ht != 0 && g_nxl != 0);
+    g_written = false; g_wmask = 0; g_size_decs = 0;
+    g_E = nondet_ushort(); g_L = nondet_uchar(); g_W = nondet_ushort(); g_K = nondet_ushort();
+    __CPROVER_assume(g_E >= 1 && g_E <= g_n && g_L < max_level && g_W <= g_n && g_W != g_E && g_K <= g_n && g_K != g_E && HT_OK(g_E) && HT_OK(g_W) && HT_OK(g_K) && HT_OK(0));
+}
+/* the predecessor of node E at the level g_L: a node in front of E whose pointer at that level is E */
+#define PRED_OF_E(p) (ISNODE(p) && IDX(p) < g_E && g_ht[IDX(p)] > g_L && NXL(IDX(p)) == NODE(g_E))
+/* the position array: only the entry of the level g_L is kept (ghost scalar g_pnL) */
+static node_ptr g_pnL;
+#define ARR_WR(a, i, v) { node_ptr v_ = (v); IDX_OK(i); if ((i) == g_L) g_pnL = v_; }
+#define ARR_FILL(a, lo, hi, v) { node_ptr v_ = (v); __CPROVER_assert((lo) <= (hi) && (hi) <= max_level, "C12.safe: the position array is filled inside its bounds"); if ((lo) <= g_L && g_L < (hi)) g_pnL = v_; }
+
+#ifdef SK_FPA
+/* ---- fill_prev_array_for_existing_node: the descent that finds the node's predecessor at every level of its height ---- */
+static node_ptr STUB_create_head_if_necessary(struct csl *s) { return NODE(0); }       /* job skip.head: the one head node (it exists: the list holds an element) */
+#define ARR_RD(a, i) (IDX_OK(i), (i) == g_L ? g_pnL : nondet_ushort())
+#define FPA_POS (node == NODE(g_E) && ISNODE(prev) && IDX(prev) < g_E && g_ht[IDX(prev)] >= level && level <= g_ht[g_E] && head == NODE(0) && UNTOUCHED && g_wmask == 0)
+#define LOOP_fpa_levels __CPROVER_assigns(level, prev, g_pnL) __CPROVER_loop_invariant(FPA_POS && (g_L >= g_ht[g_E] || g_L < level || PRED_OF_E(g_pnL))) __CPROVER_decreases(level)
+#define LOOP_fpa_walk __CPROVER_assigns(prev) __CPROVER_loop_invariant(FPA_POS && level >= 1) __CPROVER_decreases(g_E - IDX(prev))
+#define LOOP_fpa_1 LOOP_fpa_levels
+#define LOOP_fpa_2 LOOP_fpa_walk
+#include "skipfpa.inc"
+size_t IN_n, IN_E, IN_L;
+void h_fpa(void) {
+    ext_setup(); IN_n = g_n; IN_E = g_E; IN_L = g_L; g_pnL = nondet_ushort();
+    node_ptr prev_nodes[max_level]; struct csl c;
+    csl_fill_prev_array_for_existing_node(&c, prev_nodes, NODE(g_E));
+    if (g_L < g_ht[g_E]) OBLIGATION(PRED_OF_E(g_pnL), "C12.extract: at every level of the node's height the position found is THE predecessor: a node of the list in front of it whose pointer at that level is the node");
+    OBLIGATION(UNTOUCHED && g_wmask == 0, "C12.extract: the search for the predecessors changes no link");
+    VACUITY_END();
+}
+#endif
+
+#ifdef SK_UNLINK
+/* ---- internal_extract: fill_prev_array_for_existing_node through its contract (job skip.extract.prev_array) ---- */
+static node_ptr g_oE, g_oW;
+void csl_fill_prev_array_for_existing_node(struct csl *s, node_ptr *pn, node_ptr node) {
+    __CPROVER_assert(node == NODE(g_E), "C12.extract: the predecessors are searched for the node being extracted");
+    g_pnL = nondet_ushort();
+    if (g_L < g_ht[g_E]) { __CPROVER_assume(PRED_OF_E(g_pnL)); wf_inst(IDX(g_pnL), g_W); wf_inst(g_W, IDX(g_pnL)); wf_inst(IDX(g_pnL), g_K); }      /* above the node's height: nothing is promised */
+}
+static node_ptr pn_read(size_t i) { if (i == g_L) return g_pnL; node_ptr p = nondet_ushort(); if (i < g_ht[g_E]) __CPROVER_assume(ISNODE(p) && IDX(p) < g_E && g_ht[IDX(p)] > i); return p; }
+#define ARR_RD(a, i) (IDX_OK(i), pn_read(i))
+#define ATOMIC_FETCH_SUB_AT(site, w, v) (g_size_decs++, (w) -= (v))
+#define EL (g_L < g_ht[g_E])
+#define WL (g_L < g_ht[g_W])
+#define LOOP_extract_unlink __CPROVER_assigns(level, g_written, g_wmask, __CPROVER_object_whole(g_nxl)) \
+    __CPROVER_loop_invariant(level <= g_ht[g_E] && g_size_decs == 0 && (g_wmask >> level) == 0 \
+        && (!EL ? !g_written : (g_L < level ? (NXL(g_E) == NULL && NXL(IDX(g_pnL)) == g_oE) : (NXL(g_E) == g_oE && NXL(IDX(g_pnL)) == NODE(g_E) && !g_written))) \
+        && (!WL || (EL && g_W == IDX(g_pnL)) || NXL(g_W) == g_oW)) __CPROVER_decreases(g_ht[g_E] - level)
+#define LOOP_extract_1 LOOP_extract_unlink
+#include "skipextract.inc"
+size_t IN_n, IN_E, IN_L, IN_W, IN_K; bool IN_end;
+void h_extract(void) {
+    ext_setup(); IN_n = g_n; IN_E = g_E; IN_L = g_L; IN_W = g_W; IN_K = g_K; g_pnL = nondet_ushort();
+    bool at_end = IN_end = nondet_bool(); struct csl c; size_type size0 = c.my_size = nondet_size_t(); __CPROVER_assume(size0 >= 1);          /* the list holds the node: it is not empty */
+    wf_inst(g_W, g_E); wf_inst(g_W, g_K); wf_inst(g_E, g_K); wf_inst(g_E, g_W);
+    g_oW = WL ? NXL(g_W) : NULL; g_oE = EL ? NXL(g_E) : NULL;
+    struct npair r = csl_internal_extract(&c, at_end ? NULL : NODE(g_E));
+    if (at_end) OBLIGATION(r.first == NULL && r.second == NULL && c.my_size == size0 && UNTOUCHED && g_wmask == 0, "C12.extract: extracting end() takes nothing out and changes nothing");
+    else {
+        OBLIGATION(r.first == NODE(g_E) && (g_L != 0 || r.second == g_oE), "C12.extract: the node handed out is the one asked for, and the iterator returned is the element that followed it");
+        OBLIGATION(g_size_decs == 1 && c.my_size == size0 - 1, "C12.extract: the element count drops by exactly one");
+        if (EL) OBLIGATION(NXL(g_E) == NULL, "C12.extract: a node that is outside every container carries no link into a container, at ANY level of its height (insert(node_type&&) links bottom-up, and a reader that reaches the node at a low level and reads a higher level must see null, not a stale successor)");
+        if (WL) { node_ptr now = NXL(g_W);
+            OBLIGATION(g_oW == NODE(g_E) ? now == g_oE : now == g_oW, "C12.extract: at every level the link that led to the node now leads to the node's old successor at that level, and every other link is kept - nothing but the node leaves the list");
+            OBLIGATION(now == NULL ? !(g_K > g_W && g_ht[g_K] > g_L) : (ISNODE(now) && IDX(now) > g_W && IDX(now) != g_E && g_ht[IDX(now)] > g_L && !(g_W < g_K && g_K < IDX(now) && g_ht[g_K] > g_L)),
+                "C12.extract: the list minus the node is again a well-formed skip list: every level's chain is exactly the remaining nodes of that height in level-0 order (sorted, none skipped, none twice)"); }
+    }
+    VACUITY_END();
+}
+#endif
+
+#ifdef SK_ERASE
+/* ---- unsafe_erase(iterator): internal_extract through its contract (job skip.extract.unlink) ---- */
+static node_ptr g_x, g_follow; static int g_extracts, g_deleted; static node_ptr g_deleted_node;
+static struct npair ERASE_EXTRACT(struct csl *s, node_ptr pos) { g_extracts++; __CPROVER_assert(pos == g_x, "C12.erase: the node extracted is the one the iterator stands on");
+    struct npair r; r.first = pos; r.second = (pos == NULL) ? NULL : g_follow; return r; }
+static void STUB_delete_value_node(struct csl *s, node_ptr n) { g_deleted++; g_deleted_node = n; }
+#include "skiperase.inc"
+void h_erase(void) {
+    g_x = nondet_ushort(); g_follow = nondet_ushort(); g_extracts = 0; g_deleted = 0; g_deleted_node = NULL; struct csl c;
+    node_ptr r = csl_unsafe_erase(&c, g_x);
+    OBLIGATION(g_extracts == 1, "C12.erase: the element is unlinked exactly once");
+    if (g_x == NULL) OBLIGATION(g_deleted == 0 && r == NULL, "C12.erase: erasing end() frees nothing and returns end()");
+    else OBLIGATION(g_deleted <= 1 && (g_deleted == 0 || g_deleted_node == g_x) && r == g_follow, "C12.erase: nothing but the unlinked node is freed, at most once, and the iterator returned is the element that followed it");
+    VACUITY_END();
+}
+#endif
+#endif /* SK_EXT */
 
 #if defined(SK_FIND) || defined(SK_FILL) || defined(SK_INS)
 /* ---- the list model ---- */
